@@ -1132,3 +1132,127 @@ def unrolled(fn):
 def bound_texts(fn, mp):
     defs = local_defs(fn)
     return {p_: TextAlt(norm(a), resolve(fn, a, defs)) for p_, a in mp.items()}
+
+
+# --------------------------------------------------------------------------
+# geometry closure of ConeCyl._rebuild on every call, not only the first (sixth wave, C16_w6A)
+
+
+def check_geometry_closure(chk, rule, rel='compmech/conecyl/conecyl.py', cls='ConeCyl', meth='_rebuild'):
+    """r1, r2, L and sin(alpha) all reach the kernels.  Whatever the truthiness of (r1, r2, L, H) on entry -- first call
+    with one radius given, or a later call on an object whose derived radius is already set -- every path through
+    _rebuild that does not raise must execute, after the store of self.sina, one of the two closure stores
+    self.r1 = self.r2 + self.L*self.sina / self.r2 = self.r1 - self.L*self.sina (their right-hand sides are decided
+    by R18.4).  A compute-once guard (`elif not self.r1`) leaves r1 at the value of the previous angle / length.
+    Decided by a syntax-directed walk of the method over the finite domain truthiness(r1, r2, L, H) x flags."""
+    m = module(rel)
+    fn = m.method(cls, meth)
+    ATTRS = ('r1', 'r2', 'L', 'H')
+
+    def truth(test, st):
+        """-> True / False / None under the truthiness facts st (dict attr -> bool)"""
+        if isinstance(test, ast.UnaryOp) and isinstance(test.op, ast.Not):
+            v = truth(test.operand, st)
+            return None if v is None else (not v)
+        if isinstance(test, ast.BoolOp):
+            vals = [truth(v, st) for v in test.values]
+            if isinstance(test.op, ast.And):
+                if any(v is False for v in vals):
+                    return False
+                return True if all(v is True for v in vals) else None
+            if any(v is True for v in vals):
+                return True
+            return False if all(v is False for v in vals) else None
+        d = dotted(test)
+        if d and d.startswith('self.') and d[5:] in ATTRS:
+            return st[d[5:]]
+        if isinstance(test, ast.Compare) and len(test.ops) == 1 and isinstance(test.comparators[0], ast.Constant) \
+                and test.comparators[0].value is None:
+            d = dotted(test.left)
+            if d and d.startswith('self.') and d[5:] in ATTRS and st[d[5:]]:
+                return isinstance(test.ops[0], ast.IsNot)       # truthy => not None
+        return None
+
+    def freeze(st):
+        return tuple(sorted(st.items()))
+
+    def block(stmts, states):
+        """states: set of frozen states -> set of frozen states that fall through; raising / returning paths are collected"""
+        cur = set(states)
+        for s in stmts:
+            nxt = set()
+            for fs in cur:
+                nxt |= stmt(s, dict(fs))
+            cur = nxt
+        return cur
+
+    exits = set()
+
+    def stmt(s, st):
+        if isinstance(s, ast.Raise):
+            return set()
+        if isinstance(s, ast.Return):
+            exits.add(freeze(st))
+            return set()
+        if isinstance(s, ast.If):
+            t = truth(s.test, st)
+            out = set()
+            if t is not False:
+                out |= block(s.body, {freeze(st)})
+            if t is not True:
+                out |= block(s.orelse, {freeze(st)})
+            return out
+        if isinstance(s, (ast.For, ast.While)):
+            once = block(s.body, {freeze(st)})
+            twice = block(s.body, once) if once else set()
+            return {freeze(st)} | once | twice | block(s.orelse, {freeze(st)})
+        if isinstance(s, ast.Try):
+            out = block(s.body, {freeze(st)})
+            for h in s.handlers:
+                out |= block(h.body, {freeze(st)})
+            return block(s.finalbody, out) if s.finalbody else out
+        if isinstance(s, ast.With):
+            return block(s.body, {freeze(st)})
+        if isinstance(s, (ast.Assign, ast.AugAssign)):
+            tgts = s.targets if isinstance(s, ast.Assign) else [s.target]
+            for t in tgts:
+                d = dotted(t)
+                if d == 'self.sina':
+                    st['sina'] = True
+                    st['closed'] = False
+                elif d in ('self.r1', 'self.r2'):
+                    txt = norm(s.value) if isinstance(s, ast.Assign) else ''
+                    other = 'self.r2' if d == 'self.r1' else 'self.r1'
+                    if other in txt and 'self.sina' in txt and 'self.L' in txt:
+                        st['closed'] = bool(st['sina'])
+                        st[d[5:]] = True
+                    else:
+                        st['closed'] = False
+                        st[d[5:]] = True if not (isinstance(s.value, ast.Constant) and not s.value.value) else False
+                elif d in ('self.L', 'self.H'):
+                    st[d[5:]] = True
+                    if d == 'self.L':
+                        st['closed'] = False
+        return {freeze(st)}
+
+    nstates = 0
+    bad = []
+    for bits in range(16):
+        st = {a: bool(bits >> k & 1) for k, a in enumerate(ATTRS)}
+        st['sina'] = False
+        st['closed'] = False
+        entry = dict(st)
+        exits.clear()
+        done = block(fn.body, {freeze(st)}) | set(exits)
+        nstates += 1
+        for fs in done:
+            if not dict(fs)['closed']:
+                bad.append(', '.join('%s %s' % (a, 'set' if entry[a] else 'unset') for a in ATTRS))
+                break
+    chk.floor(rule + ' entry states of %s.%s' % (cls, meth), nstates, 16)
+    chk.ob(rule, not bad, rel, '%s.%s' % (cls, meth), 'r1 = r2 + L sin(alpha) re-established on every call', line=fn.lineno,
+           expected='a closure store of self.r1 or self.r2 after the store of self.sina on every non-raising path, for every truthiness of (r1, r2, L, H) on entry',
+           got=('no closure store on a path entered with ' + '; or with '.join(bad[:3])) if bad else 'ok',
+           detail='' if not bad else 'an object that was rebuilt once keeps the derived radius of the previous angle / length: k0 (edge terms use r1), kG0 and the '
+                                     'loads are computed for a geometry that is not the one defined now, and differ from those of a fresh object with the same definition',
+           sample='%s.%s: 16 entry states, closure store on every non-raising path' % (cls, meth))
